@@ -10,7 +10,7 @@ NCPU = os.cpu_count() or 4
 PROFILES = {
     "C13": dict(spec=dict(p_ig=0.15, p_args=0.35, p_generic=0.25, max_benches=14, p_time=0.1), cfg=dict(actions=["test", "test", "test", "bench", "terse", "list"], p_filters=0.95, p_ignore_flag=0.4, p_sort=0.2, p_timer_flag=0.3)),
     "C14": dict(spec=dict(p_ig=0.35, p_args=0.35, p_generic=0.2, max_benches=12, p_time=0.25, time_kinds=[0, 0, 0, 1, 2], p_coarse_counter=0.6), cfg=dict(actions=["list", "terse", "list_benches"], p_filters=0.5, p_ignore_flag=0.7, p_sort=0.2, p_timer_flag=0.4, p_runner_opts=0.35, p_single_runner_opt=0.2)),
-    "C15": dict(spec=dict(p_sc=0.5, p_ss=0.6, p_th=0.35, p_ig=0.25, p_ctr=0.35, p_time=0.25, time_multi=True, p_bcounter=0.25, p_group=0.7, max_benches=10, p_args=0.15, p_generic=0.15, p_coarse_counter=0.2, p_gen_cost=0.5, p_budget_scenario=0.12, p_wide_counts=0.06),
+    "C15": dict(spec=dict(p_sc=0.5, p_ss=0.6, p_th=0.35, p_ig=0.25, p_ctr=0.35, p_time=0.25, time_multi=True, p_bcounter=0.25, p_group=0.7, max_benches=10, p_args=0.15, p_generic=0.15, p_coarse_counter=0.2, p_gen_cost=0.5, p_budget_scenario=0.12, p_minmax_scenario=0.12, p_wide_counts=0.06),
                 cfg=dict(actions=["bench", "bench", "bench", "test", "list"], p_filters=0.1, p_ignore_flag=0.4, p_sort=0.1, p_runner_opts=0.7, time_opts=True, p_timer_flag=0.3, p_single_runner_opt=0.15,
                          decoys={"sc": [4, 6, 9], "ss": [5, 6], "th": [[1], [5], [2, 3]], "c0": [3], "c1": [3], "c2": [3], "c3": [3]})),
     "C16": dict(spec=dict(p_ig=0.05, p_args=0.4, p_generic=0.3, max_benches=18, min_benches=4), cfg=dict(actions=["test", "list", "test"], p_filters=0.15, p_ignore_flag=0.2, p_sort=0.9)),
